@@ -21,6 +21,8 @@ type bitLemma struct {
 	// mention bitD(w,j) (definition of a bit) and popD(w) (definition of popcount).
 	Proof func(k int) string
 	PerK  bool
+	// Cuts: intermediate facts, each proved by its own query; the Proof formula is then proved under their conjunction
+	Cuts func(k int) []string
 	// Assumed: not proved but taken as the definition of the function it talks about (stdlib math/bits, or the spec function wcnt)
 	Assumed string
 }
@@ -270,6 +272,25 @@ var bitLemmas = []bitLemma{
 		Proof: func(k int) string {
 			return fmt.Sprintf("(= %s %d)", popD("(bvsub "+kc(k)+" "+one+")"), k)
 		}},
+	{Name: "popcnt-not",
+		Axiom: "(forall ((w (_ BitVec 64))) (! (= (popcnt (bvnot w)) (- 64 (popcnt w))) :pattern ((popcnt (bvnot w)))))",
+		Cuts: func(k int) []string {
+			// one cut per byte (an 8-bit enumeration each); the lemma is then linear arithmetic over the cuts
+			var cuts []string
+			for j := 0; j < 8; j++ {
+				var b strings.Builder
+				b.WriteString("(= (+")
+				for i := 8 * j; i < 8*j+8; i++ {
+					fmt.Fprintf(&b, " (ite %s 1 0) (ite %s 1 0)", bitD("w", i), bitD("(bvnot w)", i))
+				}
+				b.WriteString(") 8)")
+				cuts = append(cuts, b.String())
+			}
+			return cuts
+		},
+		Proof: func(k int) string {
+			return "(= " + popD("(bvnot w)") + " (- 64 " + popD("w") + "))"
+		}},
 	{Name: "wordeq-def",
 		Axiom: "(forall ((a (_ BitVec 64)) (b (_ BitVec 64))) (! (= (wordeq a b) (= a b)) :pattern ((wordeq a b))))",
 		Assumed: "definition of the spec builtin wordeq(a,b): a == b (exists to give the extensionality fact a trigger)"},
@@ -322,7 +343,16 @@ func cmdLemmas(args []string) int {
 			}
 		}
 		for _, k := range ks {
-			q := "(declare-fun w () (_ BitVec 64))\n(declare-fun a () (_ BitVec 64))\n(declare-fun b () (_ BitVec 64))\n(assert (not " + l.Proof(k) + "))\n"
+			hdr := "(declare-fun w () (_ BitVec 64))\n(declare-fun a () (_ BitVec 64))\n(declare-fun b () (_ BitVec 64))\n"
+			goal := l.Proof(k)
+			if l.Cuts != nil {
+				cuts := l.Cuts(k)
+				for _, c := range cuts {
+					jobs = append(jobs, job{l.Name + "(cut)", k, hdr + "(assert (not " + c + "))\n"})
+				}
+				goal = "(=> (and " + strings.Join(cuts, " ") + ") " + goal + ")"
+			}
+			q := hdr + "(assert (not " + goal + "))\n"
 			jobs = append(jobs, job{l.Name, k, q})
 		}
 	}
